@@ -6,6 +6,7 @@ C14 driver: one JSON request per line on stdin, one JSON answer per line on stdo
   {"op":"docs_ok","backend":B}                      -> {"ok":bool,"detail":[..]}
   {"op":"render","backend":B,"lists":{k:[s]},"scalars":{k:s}}
                                                     -> {"files":{F:s},"recognised":{F:bool}}
+  {"op":"spec_info","backend":B,"lists":{k:[s]},"files":{F:s}} -> {"holds":bool,"why":s}
   {"op":"process","mds":[MD]}                       -> {"ok":[BLOCK]} | {"err":"badItem"|"conflict"}
   {"op":"spec_process","mds":[MD],"outcome":{"ok":[BLOCK]}|{"refused":true}} -> {"holds":bool,"why":s}
   {"op":"package","backend":B,"mds":[MD],"base":BASE} -> {"files":{F:s}} | {"err":..}
@@ -199,9 +200,25 @@ def handle (line : String) : String :=
           pure (Json.mkObj [
             ("files", Json.mkObj (strict.map fun (n, t) => (n, jstr (render t info)))),
             ("recognised", Json.mkObj (strict.map fun (n, t) => (n, Json.bool (recognisedAll t))))])
+        else if op == "spec_info" then
+          -- the file-level property for an arbitrary context (jinja2 stream)
+          let lists ← (← objPairs (← j.getObjVal? "lists")).mapM fun (k, v) => do pure (k, ← strList v)
+          let info : Info := { scalars := [], lists }
+          let out ← parseFiles (← j.getObjVal? "files")
+          let wit := witnessFor strict lenient
+          let whys := docs.filterMap fun d =>
+            if decide (SpecFileAt d info wit out) then none else some (specFileWhy d info wit out)
+          pure (answer whys.isEmpty (String.intercalate "; " whys))
         else if op == "package" then
-          match runPackage injectFields strict (← parseMds j) (← parseBase j) with
-          | .ok out => pure (Json.mkObj [("files", Json.mkObj (out.map fun (n, s) => (n, jstr s)))])
+          let mds ← parseMds j
+          let base ← parseBase j
+          match runPackage injectFields strict mds base with
+          | .ok out =>
+            let lists := match processMd injectFields mds [] with
+              | .ok bs => (mkInfo base bs).lists
+              | .error _ => []
+            pure (Json.mkObj [("files", Json.mkObj (out.map fun (n, s) => (n, jstr s))),
+              ("lists", Json.mkObj (lists.map fun (k, v) => (k, jstrs v)))])
           | .error e => pure (Json.mkObj [("err", errKind e)])
         else if op == "spec" then
           let mds ← parseMds j
